@@ -605,7 +605,7 @@ def hist_params(draw):
     return {"kind": kind, "p": p, "omit": omit, "kw": draw(st.booleans()),
             "pts": [[draw(st.floats(-2.5, 2.5)), draw(st.floats(-2.5, 2.5)), draw(st.floats(-0.5, 1.5))] for _ in range(3)],
             "xs": [draw(st.floats(-0.5, 1.5)) for _ in range(3)],
-            "acc_max": not _open(F_MAX)}
+            "acc_max": not _open(F_MAX), "acc_first": draw(st.booleans())}
 
 
 def close_each(ctx, got, want, what, info):
@@ -631,6 +631,7 @@ class Hist:
         self.pts = params["pts"]
         self.xs = params["xs"]
         self.acc_max = params.get("acc_max", True)
+        self.acc_first = bool(params.get("acc_first", False))
         self.is_profile = self.kind in PROFILES
         self.laser = self.obj = None
         self.n_set = 0
@@ -688,6 +689,9 @@ class Hist:
         else:
             w = p["max_wavelength"] - p["min_wavelength"]
             with ctx.cut("observe:spectrum"):
+                if self.acc_first:
+                    # the plain accessor methods before any property is read (a lazily refreshed cache must serve them too)
+                    pre = [obj.get_delta_wavelength(), obj.get_min_wavelenth(), obj.get_spectral_bins()]
                 o["wavelengths"] = np.array(obj.wavelengths, dtype=float)
                 o["power_spectral_density"] = np.array(obj.power_spectral_density, dtype=float)
                 o["power"] = o["power_spectral_density"] * obj.delta_wavelength
@@ -695,6 +699,8 @@ class Hist:
                 acc = [obj.delta_wavelength, obj.get_delta_wavelength(), obj.get_min_wavelenth(), obj.get_spectral_bins()]
                 if self.acc_max:
                     acc.append(obj.get_max_wavelenth())
+                if self.acc_first:
+                    acc[1], acc[2], acc[3] = pre
                 o["accessors"] = np.array(acc, dtype=float)
                 o["params"] = np.array([getattr(obj, k) for k in SPECTRUM_KEYS[self.kind]], dtype=float)
         return o
